@@ -40,6 +40,8 @@ type LoopContract struct {
 	Stmt       ast.Stmt // resolved
 }
 
+type GhostSet struct{ Kind, Addr, Val string }
+
 type FuncContract struct {
 	PkgDir   string
 	Recv     string // "" | "T" | "*T"
@@ -53,6 +55,10 @@ type FuncContract struct {
 	Ensures  []*Clause
 	Assigns  []string
 	HasAssigns bool
+	// ghost bookkeeping of an abstracted (trusted) callee: at every call the ghost counter `Kind`
+	// at address Addr is set to Val (both evaluated in the state before the call), so that a
+	// caller's contract can say whether, how often and in which order abstracted callees ran
+	GhostSets []GhostSet
 	Loops    []*LoopContract
 	Opts     map[string]string
 	Decl     *ast.FuncDecl
@@ -85,7 +91,7 @@ type PkgContracts struct {
 }
 
 var clauseKW = map[string]bool{"func": true, "requires": true, "ensures": true, "pure": true, "trusted": true,
-	"assigns": true, "loop": true, "invariant": true, "decreases": true, "bounded": true, "import": true,
+	"assigns": true, "ghostset": true, "loop": true, "invariant": true, "decreases": true, "bounded": true, "import": true,
 	"opt": true, "|": true, "note": true}
 
 func findContractFiles(repo string) []string {
@@ -209,6 +215,14 @@ func parseContractFile(repo, path string) (*PkgContracts, error) {
 					cur.Assigns = append(cur.Assigns, splitTop(rest, ',')...)
 				}
 				lastAssigns = true
+				last = nil
+			case "ghostset":
+				// ghostset "<kind>" <address expression> = <int expression>
+				m := regexp.MustCompile(`^"([^"]+)"\s+(.+?)\s+=\s+(.+)$`).FindStringSubmatch(rest)
+				if m == nil {
+					return nil, fmt.Errorf("%s:%d: ghostset needs: \"kind\" <address> = <value>", path, ln)
+				}
+				cur.GhostSets = append(cur.GhostSets, GhostSet{m[1], m[2], m[3]})
 				last = nil
 			case "requires":
 				c := &Clause{Kind: kw, Text: rest, Line: ln}
@@ -839,6 +853,17 @@ func exists(lo, hi int, f func(i int) bool) bool {
 				return "", fmt.Errorf("%s: assigns %q: %v", fc.File, a, err)
 			}
 			fmt.Fprintf(&body, "func %s_asg%d(%s) any { return %s }\n", base, i, preParams, expr)
+		}
+		for i, g := range fc.GhostSets {
+			if _, err := parser.ParseExpr(g.Addr); err != nil {
+				return "", fmt.Errorf("%s: ghostset address %q: %v", fc.File, g.Addr, err)
+			}
+			ve, err := parseClauseExpr(g.Val)
+			if err != nil {
+				return "", fmt.Errorf("%s: ghostset value %q: %v", fc.File, g.Val, err)
+			}
+			fmt.Fprintf(&body, "func %s_gsa%d(%s) any { return %s }\n", base, i, preParams, g.Addr)
+			fmt.Fprintf(&body, "func %s_gsv%d(%s) int { return %s }\n", base, i, preParams, exprString(ve))
 		}
 		for li, lc := range fc.Loops {
 			if lc.Missing {
